@@ -898,6 +898,11 @@ pub trait StoreFor<T: Storable>: Configurable + private::StoreCallbacks<T> {
     /// This is a low-level API method. You usually don't want to call this directly.
     fn resolve_id(&self, id: &str) -> Result<T::HandleType, StamError> {
         if let Some(idmap) = self.idmap() {
+            //(an item that carries this very string as its public identifier comes first,
+            // also when the string has the shape of a temporary identifier)
+            if let Some(handle) = idmap.data.get(id) {
+                return Ok(*handle);
+            }
             if idmap.resolve_temp_ids && id.starts_with(T::temp_id_prefix()) {
                 //(a temporary id only resolves for the type its letter stands for)
                 if let Some(number) = resolve_temp_id(id) {
@@ -908,14 +913,10 @@ pub trait StoreFor<T: Storable>: Configurable + private::StoreCallbacks<T> {
                     }
                 }
             }
-            if let Some(handle) = idmap.data.get(id) {
-                Ok(*handle)
-            } else {
-                Err(StamError::IdNotFoundError(
-                    id.to_string(),
-                    Self::store_typeinfo(),
-                ))
-            }
+            Err(StamError::IdNotFoundError(
+                id.to_string(),
+                Self::store_typeinfo(),
+            ))
         } else {
             Err(StamError::NoIdError(Self::store_typeinfo()))
         }
